@@ -520,7 +520,7 @@ func (x *Exec) appendOp(st *State, in ssa.Instruction, c *ssa.CallCommon, args [
 		}
 		x.assume("A-APPEND")
 		nc := Cat(x.sliceBytes(st, base), add)
-		x.countAllocN(st, Len(nc)) // worst case: reallocation
+		x.countAllocN(st, Mul(IntLit(3), Len(add))) // amortised growth (A-APPEND)
 		r := x.newByteSlice(st, nc, "app")
 		r.Nil = And(base.Nil, Eq(Len(add), IntLit(0)))
 		// an append result may share its argument's backing array: not fresh unless the argument was
@@ -555,7 +555,7 @@ func (x *Exec) appendOp(st *State, in ssa.Instruction, c *ssa.CallCommon, args [
 		st.Assume(Forall([]*Term{k}, Implies(And(Le(IntLit(0), k), Lt(k, src.Len)), Eq(Select(arr, Add(base.Len, k)), Select(rs.Arr, Add(src.Off, k)))), Select(arr, Add(base.Len, k))))
 	}
 	esz := types.SizesFor("gc", "amd64").Sizeof(elt)
-	x.countAllocN(st, Mul(IntLit(esz), n))
+	x.countAllocN(st, Mul(IntLit(3*esz), src.Len)) // amortised growth (A-APPEND)
 	reg := newObj(ObjRegion, elt, "app", base.Reg.Fresh)
 	st.Heap[reg] = &RegionVal{Arr: arr, Len: n}
 	return &SliceVal{Reg: reg, Off: IntLit(0), Len: n, Cap: n, Nil: And(base.Nil, Eq(src.Len, IntLit(0))), Elt: elt}
